@@ -7,18 +7,19 @@ cell, so two instances share nothing (C18); the CIDInit procedure set is a fresh
 -/
 namespace PsVerif.Model
 
-/-- names bound to Go functions in `makeSystemDict` (value = `builtin` with the same id) -/
+/-- names bound to Go functions in `makeSystemDict` (value = `builtin` with the same id), in byte order -/
 def systemOperators : List String :=
-  ["[", "]", "<<", ">>", "abs", "add", "and", "array", "begin", "bind", "cleartomark", "closefile", "copy",
-   "count", "currentdict", "currentfile", "cvx", "def", "definefont", "defineresource", "dict", "dup", "exec",
-   "eexec", "end", "eq", "exch", "executeonly", "exit", "findfont", "findresource", "for", "forall", "get",
-   "getinterval", "if", "ifelse", "index", "internaldict", "known", "length", "load", "loop", "mark", "matrix",
-   "maxlength", "mul", "ne", "noaccess", "not", "or", "pop", "put", "putinterval", "readonly", "readstring",
-   "repeat", "roll", "stop", "string", "sub", "type", "where"]
+  ["<<", ">>", "[", "]", "abs", "add", "and", "array", "begin", "bind", "cleartomark", "closefile",
+   "copy", "count", "currentdict", "currentfile", "cvx", "def", "definefont", "defineresource",
+   "dict", "dup", "eexec", "end", "eq", "exch", "exec", "executeonly", "exit", "findfont",
+   "findresource", "for", "forall", "get", "getinterval", "if", "ifelse", "index", "internaldict",
+   "known", "length", "load", "loop", "mark", "matrix", "maxlength", "mul", "ne", "noaccess", "not",
+   "or", "pop", "put", "putinterval", "readonly", "readstring", "repeat", "roll", "stop", "string",
+   "sub", "type", "where"]
 
 /-- the other entries of systemdict -/
 def systemNonOperators : List String :=
-  ["errordict", "false", "FontDirectory", "StandardEncoding", "true", "userdict", "systemdict"]
+  ["FontDirectory", "StandardEncoding", "errordict", "false", "systemdict", "true", "userdict"]
 
 def allErrors : List String :=
   ["configurationerror", "dictfull", "dictstackoverflow", "dictstackunderflow", "execstackoverflow", "handleerror",
